@@ -12,7 +12,7 @@ RULE = (
     "(LIFO) for overlays on 'gen > g > w' and 'g > w', create generator k, next k, close k, drop k, throw an "
     "exception into suspended generator k (k in {0,1}), driver call of g}, for generator functions with plain "
     "yields, a yield from, yields in chained / unpacking assignments, yields inside augmented assignments to "
-    "a captured variable with a `return` in a finally clause, and one that handles the thrown exception by "
+    "a captured variable with a `return` in a finally clause, bare yields, and one that handles the thrown exception by "
     "yielding again and swallows GeneratorExit; every history is executed twice: at top level, where the handler "
     "collection seen by the driver after every step must equal the model's (entered overlays, in order), "
     "and inside one activation of an instrumented driver function under an always-on probe "
@@ -99,6 +99,14 @@ def gen5(n):
     finally:
         return total
 
+def gen6(n):
+    # bare yields (the style of a context manager or a scheduler tick)
+    g(700)
+    yield
+    g(701)
+    yield
+    g(702)
+
 def drv(steps):
     out = []
     for step in steps:
@@ -106,9 +114,9 @@ def drv(steps):
     return out
 '''
 OVERLAYS = {"OG": "gen > g > w", "OW": "g > w", "OG2": "gen2 > g > w", "OG3": "gen3 > g > w",
-            "OG4": "gen4 > g > w", "OG5": "gen5(total) > g > w"}
-KIND_OVERLAY = {"gen2": "OG2", "gen3": "OG3", "gen4": "OG4", "gen5": "OG5"}
-FUNCS = ("g", "gen", "gen2", "gen3", "gen4", "gen5", "sub", "drv")
+            "OG4": "gen4 > g > w", "OG5": "gen5(total) > g > w", "OG6": "gen6 > g > w"}
+KIND_OVERLAY = {"gen2": "OG2", "gen3": "OG3", "gen4": "OG4", "gen5": "OG5", "gen6": "OG6"}
+FUNCS = ("g", "gen", "gen2", "gen3", "gen4", "gen5", "gen6", "sub", "drv")
 # what a generator kind does with a Retry exception thrown into it while it is suspended
 HANDLES_THROW = {"gen4"}
 # gen3 handles one thrown Retry when it is suspended at its second or third yield (inside the try)
@@ -148,7 +156,7 @@ class Run:
         handler_slot = {}
         probes = {}
         # the functions are instrumented for the whole run by non-delivering probes
-        base = [probing(OVERLAYS[o], env=env) for o in ("OG", "OG2", "OG3", "OG4", "OG5", "OW")]
+        base = [probing(OVERLAYS[o], env=env) for o in ("OG", "OG2", "OG3", "OG4", "OG5", "OG6", "OW")]
         if inside_driver:
             pd = probing("drv > g > w", env=env)
             pd.subscribe(lambda ev: self.events["PD"].append(ev["w"]))
@@ -375,8 +383,8 @@ class System:
 def kinds_for(tier):
     if tier == "quick":
         # the kinds that differ in how they end (swallowed exceptions, thrown exceptions) alone
-        return [("gen", "gen"), ("gen2", "gen"), ("gen3", "gen"), ("gen4",), ("gen5",)]
-    return [("gen", "gen"), ("gen2", "gen"), ("gen3", "gen"), ("gen4", "gen"), ("gen5", "gen"), ("gen4", "gen5")]
+        return [("gen", "gen"), ("gen2", "gen"), ("gen3", "gen"), ("gen4",), ("gen5",), ("gen6",)]
+    return [("gen", "gen"), ("gen2", "gen"), ("gen3", "gen"), ("gen4", "gen"), ("gen5", "gen"), ("gen4", "gen5"), ("gen6", "gen")]
 
 
 def units(tier):
